@@ -7,7 +7,9 @@ from . import grammar as G
 
 UNKNOWN_CHARS = ['€', 'ü', 'ß', 'Ω', '日', '¿', '§', '°', 'þ',
                  # characters that Unicode normalisation would rewrite (combining marks, singleton decompositions)
-                 '\u0301', '\u0303', '\u212b', '\u2126', '\u0323']
+                 '\u0301', '\u0303', '\u212b', '\u2126', '\u0323',
+                 # characters that str.splitlines() treats as line ends; inside a cell they are just unknown characters
+                 '\x0c', '\u2028', '\x1e', '\x85']
 TRUNCATED = ['4', '16.', '*clef', '*k[f#', '*M3/', '*met(', '*xywh-1:1,2,3', '*M', '*MM', 'h', '4h', 'q', '4q', '*staffx',
              '*k[', '*xywh-', '8..', '*>', '*Tr', '*clefX2']
 WRONG_ORDER_STRICT = ['c4', '#c4', 'r4', 'cc#8', '4c4', '.x', '-4c', '#4c', 'n4c',
